@@ -76,6 +76,9 @@ class StreamControl:
 
             self.finish_stream(stream_id)
 
+    def is_stream_registered(self, stream_id: int) -> bool:
+        return stream_id in self._streams
+
     def assert_stream_id_available(self, stream_id: int):
         if stream_id in self._streams:
             raise RSocketStreamIdInUse(stream_id)
